@@ -106,7 +106,12 @@ func (r *runner) startSweep(si int) bool {
 		return true
 	case <-r.done:
 		r.held = false
-		r.drift("the sweep finished without passing the gate (decoy key was not collected)", si)
+		if d := centrifuge.VerifMapPeek(r.b, r.decoy); d.Exists && len(d.State) == 0 {
+			// the decoy key expired and was removed, but its removal never reached the event handler
+			r.fail("C24", "expiry:removal-not-broadcast", "an expired key was removed from the state by the sweep without any call of the event handler (decoy channel)", "ExpirePhase1", si)
+		} else {
+			r.drift("the sweep finished without passing the gate (decoy key was not collected)", si)
+		}
 		return false
 	case <-time.After(3 * time.Second):
 		r.drift("the sweep did not reach the gate within 3 s", si)
